@@ -90,6 +90,61 @@ func Sum(xs []int) int {
 }
 `
 
+// a rename combined with an escalation: the function is paired by topology
+// (status "renamed") and still carries a high risk score; nothing else in the
+// diff is high-risk
+const auditOldRen = `package svc
+
+func Handler(name string) string {
+	if name == "" {
+		return "anonymous"
+	}
+	out := "hello "
+	for i := 0; i < len(name); i++ {
+		out += string(name[i])
+	}
+	return out
+}
+
+func Sum(xs []int) int {
+	t := 0
+	for _, x := range xs {
+		t += x
+	}
+	return t
+}
+`
+
+const auditNewRen = `package svc
+
+var sink = make(chan string, 8)
+
+func leak(s string) { sink <- s }
+
+func drain() string { return <-sink }
+
+func HandlerV2(name string) string {
+	if name == "" {
+		return "anonymous"
+	}
+	go leak(name)
+	defer drain()
+	out := "hello "
+	for i := 0; i < len(name); i++ {
+		out += string(name[i])
+	}
+	return out
+}
+
+func Sum(xs []int) int {
+	t := 0
+	for _, x := range xs {
+		t += x
+	}
+	return t
+}
+`
+
 type auditPair struct {
 	old, new string
 	diffJSON []byte
@@ -121,7 +176,9 @@ func auditCorpus() ([]auditPair, error) {
 		o := write("old/svc.go", auditOld)
 		risky := write("risky/svc.go", auditNewRisky)
 		same := write("same/svc.go", auditOld)
-		for _, pr := range [][2]string{{o, risky}, {o, same}} {
+		oren := write("oldren/svc.go", auditOldRen)
+		nren := write("newren/svc.go", auditNewRen)
+		for _, pr := range [][2]string{{o, risky}, {o, same}, {oren, nren}} {
 			out, err := ComputeDiff(RealFileSystem{}, pr[0], pr[1])
 			if err != nil {
 				auditErr = fmt.Errorf("ComputeDiff(%s,%s): %w", pr[0], pr[1], err)
@@ -139,8 +196,8 @@ func auditCorpus() ([]auditPair, error) {
 				auditErr = fmt.Errorf("corpus pair has an ambiguous risk score %d", maxRisk)
 			}
 		}
-		if !auditPairs[0].highRisk || auditPairs[1].highRisk {
-			auditErr = fmt.Errorf("corpus risk classification unexpected: %v %v", auditPairs[0].highRisk, auditPairs[1].highRisk)
+		if auditErr == nil && (!auditPairs[0].highRisk || auditPairs[1].highRisk || !auditPairs[2].highRisk) {
+			auditErr = fmt.Errorf("corpus risk classification unexpected: %v %v %v", auditPairs[0].highRisk, auditPairs[1].highRisk, auditPairs[2].highRisk)
 		}
 	})
 	return auditPairs, auditErr
@@ -164,7 +221,7 @@ func runC13Audit(t *vs.Tape, cfg map[string]string) (res vs.Result) {
 		res.Infra = "corpus: " + err.Error()
 		return
 	}
-	pi := t.Weighted("pair", 3, 1)
+	pi := t.Weighted("pair", 3, 1, 2)
 	pair := pairs[pi]
 	family := vs.Pick(t, "family", "openai", "gemini")
 	model := "gpt-4o"
